@@ -85,9 +85,10 @@ CONSTANTS
     FwInbound,                     \* newAuthenticatedInboundConnection calls checkFirewallRules
     VerifyAct1,                    \* responderReceiveAct1 verifies the envelope against the claimed peer id
     MatchInner,                    \* processContainerMessage compares outer and inner sender
-    StrictSign                     \* pubsub.WithMessageSignaturePolicy(StrictSign)
+    StrictSign,                    \* pubsub.WithMessageSignaturePolicy(StrictSign)
+    Reduce                         \* TRUE: steps that commute with everything else are not interleaved (see Next)
 
-ASSUME MaxSend \in 1..2
+ASSUME MaxSend \in Nat \ {0}   \* S sends at most two messages (RT1, RT2); A numbers its own up to MaxSend
 
 Honest == {"R", "S"}
 Peers  == {"R", "S", "A"}
@@ -165,6 +166,9 @@ Up(x, y) ==
 
 \* identity node n holds for its peer q (A may run under a claimed identity when VerifyAct1 is off)
 Ident(n, q) == IF q = "A" THEN claimed[n] ELSE q
+
+\* x's end of the connection x - y exists: x writes to it (what it writes is read once both ends exist)
+SendUp(x, y) == IF x = "A" THEN cs[<<y, "A">>] = "admitted" ELSE cs[<<x, y>>] = "admitted"
 
 OnLink(c, x, y) == {c.to, c.hop} = {x, y}
 
@@ -326,20 +330,22 @@ SessEnd ==
                   ELSE [cs EXCEPT ![<<"S", "R">>] = "none", ![<<"R", "S">>] = IF pin = "X" THEN @ ELSE "none"]
          /\ adm' = IF good THEN adm
                    ELSE [adm EXCEPT ![<<"S", "R">>] = NoAdm, ![<<"R", "S">>] = IF pin = "X" THEN @ ELSE NoAdm]
+         /\ wire' = IF good THEN wire ELSE DownWire("S", "R")
     /\ sess' = "idle" /\ sfw' = [i |-> "todo", r |-> "todo"]
     /\ HsIdle /\ UNCHANGED <<old, used>>
     /\ UNCHANGED <<clock, fwRvars, fwSvars, chainVars, ndials, claimed, everAdm, ndrops, nadvdials, bcVars, ticks,
-                   rt1Vars, rt2Vars, netVars, ghostVars>>
+                   rt1Vars, rt2Vars, inbox, advUsed, ghostVars>>
 
 ---------------------------------------------------------------------------
 \* the adversary dials node n itself: it signs with its own key, may claim any identity, run any protocol id
 \* and echo a right or a wrong challenge. Restated from Handshake (AnswerAct1 / Finalize with Verified):
 \* the responder completes iff the envelopes verify against the claimed peer id (only A's own id verifies
 \* under A's signatures), the protocol ids agree and act 3 carries H(nonce1, nonce2).
+HsAccepts(claim, proto, chalok) == (VerifyAct1 => claim = "A") /\ proto = "keep" /\ chalok
 AdvHandshake(n, claim, proto, chalok) ==
     /\ nadvdials < MaxAdvDials /\ cs[<<n, "A">>] = "none"
     /\ nadvdials' = nadvdials + 1
-    /\ IF (VerifyAct1 => claim = "A") /\ proto = "keep" /\ chalok
+    /\ IF HsAccepts(claim, proto, chalok)
           THEN /\ cs' = [cs EXCEPT ![<<n, "A">>] = "hsok"]
                /\ claimed' = [claimed EXCEPT ![n] = claim]
           ELSE UNCHANGED <<cs, claimed>>
@@ -393,13 +399,13 @@ Disconnect(x, y) ==
 
 \* publisher.Publish at S: a copy towards every peer S is connected to (A learns everything anyway)
 Publish(k) ==
-    /\ wire' = wire \cup (IF Up("S", "R") THEN {[to |-> "R", hop |-> "S", env |-> SEnv(k)]} ELSE {})
+    /\ wire' = wire \cup (IF SendUp("S", "R") THEN {[to |-> "R", hop |-> "S", env |-> SEnv(k)]} ELSE {})
     /\ pubs' = [pubs EXCEPT ![k] = @ + 1]
 
 \* channel.Send: nextSeqno, ScheduleRetransmissions (registers with the ticker), doSend
 SendS ==
     LET k == counter["S"] + 1 IN
-    /\ k <= MaxSend
+    /\ k <= MaxSend /\ k <= 2
     /\ BC!Send("S")
     /\ IF k = 1 THEN reg1' = TRUE /\ UNCHANGED <<live1, pc1, tc1, delay1, rt1, retx1, sac1, rt2Vars>>
                 ELSE reg2' = TRUE /\ UNCHANGED <<live2, pc2, tc2, delay2, rt2, retx2, sac2, rt1Vars>>
@@ -430,7 +436,7 @@ Callback(k) ==
 
 \* the context given to Send ends
 CancelSend(k) ==
-    /\ k \in CancelMsgs /\ k <= counter["S"]
+    /\ k \in CancelMsgs /\ k <= counter["S"] /\ k <= 2
     /\ IF k = 1 THEN RT1!Cancel /\ UNCHANGED rt2Vars ELSE RT2!Cancel /\ UNCHANGED rt1Vars
     /\ UNCHANGED <<clock, fwRvars, fwSvars, chainVars, hsVars, sessVars, connVars, bcVars, netVars, ghostVars>>
 
@@ -443,7 +449,7 @@ CancelSend(k) ==
 NetRead(c) ==
     /\ c \in wire /\ Up(c.to, c.hop)
     /\ LET valid == c.env.sig = "ok" \/ ~StrictSign
-           fwd == IF valid /\ c.to = "S" /\ c.env.author # "S" /\ Up("S", "R")
+           fwd == IF valid /\ c.to = "S" /\ c.env.author # "S" /\ SendUp("S", "R")
                      THEN {[to |-> "R", hop |-> "S", env |-> c.env]} ELSE {}
        IN /\ wire' = (wire \ {c}) \cup fwd
           /\ inbox' = IF valid /\ c.to = "R" THEN inbox \cup {c.env} ELSE inbox
@@ -475,35 +481,61 @@ AdvInject(n, e) ==
 
 \* everything of Broadcast that happens inside R's channel, unchanged
 nonBc == <<clock, fwRvars, fwSvars, chainVars, hsVars, sessVars, connVars, ticks, rt1Vars, rt2Vars, netVars, ghostVars>>
-TrySend       == BC!DoTrySend /\ UNCHANGED nonBc
-Register      == BC!DoRegister /\ UNCHANGED nonBc
-CancelHandler == (\E h \in CancelHandlers : BC!Cancel(h)) /\ UNCHANGED nonBc
-RemoveHandler == BC!DoRemoveHandler /\ UNCHANGED nonBc
-ExitOnDone    == BC!DoExitOnDone /\ UNCHANGED nonBc
-Dequeue       == BC!DoDequeue /\ UNCHANGED nonBc
-CheckCtx      == BC!DoCheckCtx /\ UNCHANGED nonBc
-FilterDup     == BC!DoFilterDup /\ UNCHANGED nonBc
-Invoke        == BC!DoInvoke /\ UNCHANGED nonBc
-Return        == BC!DoReturn /\ UNCHANGED nonBc
 
 ---------------------------------------------------------------------------
-DoChainChange  == \E p \in ChainPeers : ChainChange(p)
-DoAdvHandshake == \E n \in Honest, claim \in Peers, proto \in {"keep", "evil"}, chalok \in BOOLEAN :
+(* Scheduling. With Reduce = TRUE two families of steps that commute with   *)
+(* everything else are not interleaved with it (a hand-made partial-order   *)
+(* reduction; MC_Unreduced checks the same invariants without it):          *)
+(*  - the tail of the processing goroutine after the context check          *)
+(*    (FilterDup, Invoke, Return) reads and writes only that handler's pc,  *)
+(*    cur, seen, ninv: it runs to completion first (as in Trace_Broadcast); *)
+(*  - while a session S -> R is in progress only the session, the clock and *)
+(*    the chain move: the data plane neither reads nor writes what the      *)
+(*    session touches until the last firewall verdict makes the link carry  *)
+(*    data, after which only SessEnd (which keeps the link) is left;        *)
+(*  - the clock only matters relative to cache entries: it stands still     *)
+(*    while all four caches are empty.                                      *)
+BusyH  == \E h \in Handlers : pc[h] \in {"checked", "passed", "running"}
+Free   == ~Reduce \/ ~BusyH
+Quiet  == Free /\ (~Reduce \/ sess = "idle")
+Cached == \/ \E p \in {"S", "A"} : (posR[p] # None \/ negR[p] # None)
+          \/ \E q \in {"R", "A"} : (posS[q] # None \/ negS[q] # None)
+
+DoTick         == Free /\ (Reduce => Cached) /\ Tick
+DoChainChange  == Free /\ \E p \in ChainPeers : ChainChange(p)
+DoStartDial    == Quiet /\ StartDial
+DoHsStep       == Free /\ HsStep
+DoSessFwI      == Free /\ SessFwI
+DoSessFwR      == Free /\ SessFwR
+DoSessEnd      == Free /\ SessEnd
+DoAdvHandshake == Quiet /\ \E n \in Honest, claim \in Peers, proto \in {"keep", "evil"}, chalok \in BOOLEAN :
                      claim # n /\ AdvHandshake(n, claim, proto, chalok)
-DoFwCheckAdv   == \E n \in Honest : FwCheckAdv(n)
-DoGuard        == \E e \in Ends : Guard(e[1], e[2])
-DoDisconnect   == \E x \in Honest, y \in Peers : x # y /\ (y = "A" \/ x = "S") /\ Disconnect(x, y)
-DoCallback     == \E k \in 1..MaxSend : Callback(k)
-DoCancelSend   == \E k \in 1..MaxSend : CancelSend(k)
-DoNetRead      == \E c \in wire : NetRead(c)
-DoProcess      == \E e \in inbox : Process(e)
-DoAdvInject    == \E n \in Honest, e \in Envs : AdvInject(n, e)
+DoFwCheckAdv   == Quiet /\ \E n \in Honest : FwCheckAdv(n)
+DoGuard        == Quiet /\ \E e \in Ends : Guard(e[1], e[2])
+DoDisconnect   == Quiet /\ \E x \in Honest, y \in Peers : x # y /\ (y = "A" \/ x = "S") /\ Disconnect(x, y)
+DoSendS        == Quiet /\ SendS
+DoTickAll      == Quiet /\ TickAll
+DoCallback     == Quiet /\ \E k \in 1..2 : k <= MaxSend /\ Callback(k)
+DoCancelSend   == Quiet /\ \E k \in 1..2 : k <= MaxSend /\ CancelSend(k)
+DoNetRead      == Quiet /\ \E c \in wire : NetRead(c)
+DoProcess      == Quiet /\ \E e \in inbox : Process(e)
+DoAdvInject    == Quiet /\ \E n \in Honest, e \in AdvEnvs : AdvInject(n, e)
+TrySend        == Quiet /\ BC!DoTrySend /\ UNCHANGED nonBc
+Register       == Quiet /\ BC!DoRegister /\ UNCHANGED nonBc
+CancelHandler  == Quiet /\ (\E h \in CancelHandlers : BC!Cancel(h)) /\ UNCHANGED nonBc
+RemoveHandler  == Quiet /\ BC!DoRemoveHandler /\ UNCHANGED nonBc
+ExitOnDone     == Quiet /\ BC!DoExitOnDone /\ UNCHANGED nonBc
+Dequeue        == Quiet /\ BC!DoDequeue /\ UNCHANGED nonBc
+CheckCtx       == Quiet /\ BC!DoCheckCtx /\ UNCHANGED nonBc
+FilterDup      == BC!DoFilterDup /\ UNCHANGED nonBc
+Invoke         == BC!DoInvoke /\ UNCHANGED nonBc
+Return         == BC!DoReturn /\ UNCHANGED nonBc
 
 Next ==
-    \/ Tick \/ DoChainChange
-    \/ StartDial \/ HsStep \/ SessFwI \/ SessFwR \/ SessEnd
+    \/ DoTick \/ DoChainChange
+    \/ DoStartDial \/ DoHsStep \/ DoSessFwI \/ DoSessFwR \/ DoSessEnd
     \/ DoAdvHandshake \/ DoFwCheckAdv \/ DoGuard \/ DoDisconnect
-    \/ SendS \/ TickAll \/ DoCallback \/ DoCancelSend
+    \/ DoSendS \/ DoTickAll \/ DoCallback \/ DoCancelSend
     \/ DoNetRead \/ DoProcess \/ DoAdvInject
     \/ TrySend \/ Register \/ CancelHandler \/ RemoveHandler \/ ExitOnDone
     \/ Dequeue \/ CheckCtx \/ FilterDup \/ Invoke \/ Return
@@ -514,7 +546,7 @@ Spec == Init /\ [][Next]_vars
 Fair ==
     /\ WF_vars(DoNetRead) /\ WF_vars(DoProcess) /\ WF_vars(TrySend)
     /\ WF_vars(Dequeue) /\ WF_vars(CheckCtx) /\ WF_vars(FilterDup) /\ WF_vars(Invoke) /\ WF_vars(Return)
-    /\ WF_vars(DoCallback) /\ WF_vars(TickAll)
+    /\ WF_vars(DoCallback) /\ WF_vars(DoTickAll)
 LSpec == Spec /\ Fair
 
 ---------------------------------------------------------------------------
@@ -578,6 +610,10 @@ RejectedNeverDelivered ==
         /\ \A c \in wire : c.hop # "A" /\ c.env.author # "A"
         /\ \A x \in readLog : x[2] # "A"
 
+\* (3), at the handler: what the negative configurations are made to run into
+HandlerNeverSeesRejected ==
+    NeverAdmitted("A") => \A h \in Handlers : \A m \in BC!Msgs : ninv[h][m] > 0 => m.s # "A"
+
 \* (3') the per-node reading of (3) - "R delivers only what peers R itself admitted wrote" - does NOT hold:
 \*      floodsub relays, so a peer S admits (or has cached) gets its messages to R through S (MC_NegRelay)
 PerNodeAdmission == \A m \in InChannel : m.s = "A" => "A" \in everAdm["R"]
@@ -585,7 +621,11 @@ PerNodeAdmission == \A m \in InChannel : m.s = "A" => "A" \in everAdm["R"]
 \* (4) the sender a handler sees is the authenticated author: nothing is attributed to S that S did not
 \*     send, nothing A wrote is attributed to somebody else
 NoImpostor == forged = {}
+HandlerSeesAuthor == \A h \in Handlers : \A m \in BC!Msgs : ninv[h][m] > 0 => m \notin forged
 Authentic == \A m \in InChannel : m.s = "S" => m.n <= counter["S"] /\ pubs[m.n] > 0
+
+\* (4') a message whose pubsub signature does not verify never gets past pubsub (StrictSign, channel_manager.go)
+ForgedNeverRead == (\A e \in inbox : e.sig = "ok") /\ (\A x \in readLog : x[1].sig = "ok")
 
 \* (5) at most once per (sender, seqno) and handler, across retransmissions, relays, replays, reconnects;
 \*     nothing dequeued after the handler's context ended is handed over
@@ -597,12 +637,13 @@ NothingAfterCancel == BC!NoStaleInvoke
 PubsExact ==
     /\ pubs[1] = (IF counter["S"] >= 1 THEN 1 ELSE 0) + Len(retx1)
     /\ (MaxSend >= 2 => pubs[2] = (IF counter["S"] >= 2 THEN 1 ELSE 0) + Len(retx2))
+    /\ \A k \in 3..MaxSend : pubs[k] = 0
 SenderStops ==
     /\ ~live1 => pubs[1] <= 1 + sac1
     /\ (MaxSend >= 2 /\ ~live2) => pubs[2] <= 1 + sac2
 
-\* (7) R reads nothing from a connection that is down
-WireOnLiveLinks == \A c \in wire : Up(c.to, c.hop)
+\* (7) nothing is in flight on a connection whose sending end is gone
+WireOnLiveLinks == \A c \in wire : SendUp(c.hop, c.to)
 
 ---------------------------------------------------------------------------
 \* liveness (under Fair)
